@@ -229,6 +229,68 @@ func c03Worker(w *W) {
 			return
 		}
 	}
+	// phase 1b: short bursts. Four goroutines log one event each and return; at that moment - not later, when other
+	// traffic happens to flush something - each sink holds exactly those four lines (console: four chunks identical to the
+	// lines produced alone; files: grown by exactly their bytes).
+	if nb := w.ArgInt("bursts", 0); nb > 0 && G >= 4 {
+		sizes := map[string]int64{}
+		for _, s := range su.sinks {
+			if strings.HasPrefix(s, "file:") {
+				sizes[s] = offsets[strings.TrimPrefix(s, "file:")]
+			}
+		}
+		for b := 0; b < nb; b++ {
+			var picks [4]*c03ev
+			var bw sync.WaitGroup
+			for k := 0; k < 4; k++ {
+				picks[k] = evs[(b+k)%G][(b*7+k*3)%M]
+				bw.Add(1)
+				go func(e *c03ev) { defer bw.Done(); c03emit(tag, e) }(picks[k])
+			}
+			bw.Wait()
+			for _, s := range su.sinks {
+				cs := map[string]any{"setup": su.name, "cap": capName, "burst": b, "sink": s}
+				switch {
+				case s == "console":
+					want := map[string]int{}
+					for _, e := range picks {
+						want[string(alone[s][e.id])]++
+					}
+					got := console.take()
+					for _, ch := range got {
+						want[string(ch)]--
+					}
+					for ln, n := range want {
+						if n != 0 {
+							w.Violate("C03:burst:line-not-in-sink-when-calls-returned:console", fmt.Sprintf("[%s] burst %d: four log calls returned, the console received %d chunks; off by %+d for the line %q", su.name, b, len(got), -n, trunc(ln, 160)), cs)
+							return
+						}
+					}
+				case strings.HasPrefix(s, "file:"):
+					fi, err := os.Stat(strings.TrimPrefix(s, "file:"))
+					var wantGrow int64
+					for _, e := range picks {
+						wantGrow += int64(len(alone[s][e.id]))
+					}
+					if err != nil || fi.Size()-sizes[s] != wantGrow {
+						w.Violate("C03:burst:line-not-in-sink-when-calls-returned:file", fmt.Sprintf("[%s] burst %d: four log calls returned, the file grew by %d bytes, their lines have %d", su.name, b, fi.Size()-sizes[s], wantGrow), cs)
+						return
+					}
+					sizes[s] = fi.Size()
+				}
+			}
+		}
+		for s, n := range sizes {
+			offsets[strings.TrimPrefix(s, "file:")] = n
+		}
+		if len(sizes) == 0 && len(su.sinks) > 0 && su.sinks[0] != "console" {
+			// rolling directories: consume what the bursts wrote so that phase 2 starts from a clean offset
+			for _, s := range su.sinks {
+				c03read(s, console, offsets)
+			}
+		}
+		w.Count("bursts_of_four_checked_at_return", int64(nb))
+	}
 	// phase 2: the same events from G goroutines at once
 	console.maxIn.Store(0)
 	var wg sync.WaitGroup
@@ -302,7 +364,7 @@ func init() {
 		ID: "C03", Level: "exploration", MinDistinct: 20, Worker: c03Worker,
 		Rule: "workloads: 12 synchronous paths (a Discard appender referenced before and after a console appender; built-in console logger before Refresh; Refresh-built Logger -> Console/File/RollingFile appenders with Text/JSON layouts; logger-level layout fanning out to console+file; two appenders with different layouts; Console/File/RollingFile logger kinds) x bufferCap {10KB, 1KB, 8KB} x G in {4,8,16,64} goroutines (race build: G<=16); " +
 			"line sizes: 55% 10-200 B, 30% a dense sweep of 300 consecutive payload lengths across the buffer cap (so that lines of exactly cap bytes occur), 10% around cap, 5% beyond 2x cap; per-event deterministic timestamps spread over many seconds; the console sink consumes each chunk piecewise with yields. " +
-			"Oracle: each event is first logged alone (sequential phase), then all events are logged concurrently; every chunk (console) / line (files) of the concurrent phase must be byte-identical to the same event's line from the sequential phase, exactly once per event and sink. The race build runs the same workload under the Go race detector; every report with a library frame is a violation. " +
+			"Between the two phases one workload per path runs 12000 (thorough 100000) bursts in which four goroutines log one event each; when the four calls have returned the console holds exactly their four chunks and a file has grown by exactly their bytes. Oracle: each event is first logged alone (sequential phase), then all events are logged concurrently; every chunk (console) / line (files) of the concurrent phase must be byte-identical to the same event's line from the sequential phase, exactly once per event and sink. The race build runs the same workload under the Go race detector; every report with a library frame is a violation. " +
 			"Non-trivial/distinct = distinct (path, bufferCap, G, build flavour) workloads that matched completely.",
 		Assumptions: []string{"file sinks are read at quiescent points (no writer active)", "interleavings are whatever the scheduler produced on 16 cores (observed overlap is reported as max_inflight_console_writes), not enumerated"},
 		Run: func(d *D) {
@@ -321,6 +383,7 @@ func init() {
 			for su := 0; su < ns; su++ {
 				if d.Quick() {
 					add("plain", su, "10KB", []int{8, 16, 64, 4}[su%4], 400)
+				specs[len(specs)-1].Args["bursts"] = "12000"
 					add("plain", su, "1KB", []int{16, 64, 4, 8}[su%4], 1500)
 					add("race", su, []string{"1KB", "8KB"}[su%2], []int{4, 8, 16}[su%3], 250)
 				} else {
@@ -328,6 +391,7 @@ func init() {
 						add("plain", su, "10KB", g, 1500)
 						add("plain", su, "1KB", g, 5000)
 						add("plain", su, "8KB", g, 1500)
+					specs[len(specs)-1].Args["bursts"] = "100000"
 					}
 					for _, g := range []int{2, 4, 8, 16} {
 						add("race", su, "1KB", g, 1200)
